@@ -14,7 +14,7 @@ RULE = ("one position (generator of C03) encoded as a single airborne (TC 9-18, 
         "from the same box; oracle: position_with_ref / airborne_position_with_ref / surface_position_with_ref within one "
         "quantisation step of the encoded position (lon mod 360), and equal (1e-9) for both references. non-trivial = |f| or |g| >= 0.49, "
         "reference across the equator / lon 0 / antimeridian from the target, or NL-i <= 1"
-        ' Also: offsets of +-(0.5 - 5e-10) zone, whole-degree references passed as Python ints, hex letter case, and the identical string decoded first against a reference three zones away (history on the same string).')
+        ' Also: offsets of +-(0.5 - 5e-10) zone, whole-degree references passed as Python ints, numpy float64 and float32 references, hex letter case, and the identical string decoded first against a reference three zones away (history on the same string).')
 ASSUMPTIONS = ["reference strictly inside the half-zone box (|f|,|g| <= 0.5 - 5e-10)", "reference encoder ref/cpr.py follows DO-260B A.1.7.3",
                "cases whose encoded latitude lies within 1e-9 deg of an NL transition are counted, not judged"]
 
@@ -65,6 +65,10 @@ def chk_ref(case, note):
         r3 = (r3[0], -180)
     import numpy as np
     r4 = (np.float64(r2[0]), np.float64(r2[1]))  # a reference read from a numpy array
+    refs = [r1, r2, r3, r4]
+    if max(abs(case["f2"]), abs(case["g2"])) <= 0.499:
+        # a single-precision reference (receiver position kept in a float32 array): its rounding error (< 1e-5 deg) keeps it inside the box
+        refs.append((np.float32(r2[0]), np.float32(r2[1])))
     dstep = e["dlon_step"] * (1 if not surface else 1)  # surface: 19-bit bins of a 360/ni zone == 17-bit bins of 90/ni
     for name, fn in fns:
         outs = []
@@ -72,7 +76,7 @@ def chk_ref(case, note):
             base = 90.0 if surface else 360.0
             far = max(-90.0, min(90.0, r1[0] + (3 if r1[0] < 0 else -3) * base / (60 - i)))
             call(fn, msg, far, cg.wrap_lon(r1[1] + 40.0))
-        for (rl, ro) in (r1, r2, r3, r4):
+        for (rl, ro) in refs:
             r = call(fn, msg, rl, ro)
             tag = "%s(%s, %r, %r)" % (name, msg, rl, ro)
             if r[0] != "ok":
@@ -85,8 +89,9 @@ def chk_ref(case, note):
             if not ok:
                 return "%s = %r, encoded position (%r, %r)" % (tag, r[1], e["rlat"], e["rlon"])
             outs.append((lat, lon))
-        if any(abs(outs[0][0] - o[0]) > 1e-9 or cpr.lon_diff(outs[0][1], o[1]) > 1e-9 for o in outs[1:]):
-            return "%s on %s: result moves with the reference inside the half-zone box: %r vs %r" % (name, msg, outs[0], outs[1])
+        for k, o in enumerate(outs[1:], 1):
+            if abs(outs[0][0] - o[0]) > 1e-9 or cpr.lon_diff(outs[0][1], o[1]) > 1e-9:
+                return "%s on %s: result moves with the reference inside the half-zone box: %r for reference %r, %r for reference %r" % (name, msg, outs[0], refs[0], o, refs[k])
     edge = max(abs(case["f"]), abs(case["g"]), abs(case["f2"]), abs(case["g2"])) >= 0.49
     cross = (r1[0] > 0) != (e["rlat"] > 0) or (r1[1] > 0) != (cg.wrap_lon(e["rlon"]) > 0)
     lowni = e["nl"] - i <= 1
